@@ -128,8 +128,9 @@ func c10prog(ps string, res *result) func() {
 			s = r.s
 			c10rig = r
 		}
-		s.SetContent(0, 0, 'a', nil, tcell.StyleDefault)
-		s.Show()
+		// content with a non-palette colour that has not been drawn yet: the first Show of the
+		// program has to extend the colour cache
+		s.SetContent(0, 0, 'a', nil, tcell.StyleDefault.Foreground(tcell.NewRGBColor(1, 2, 3)))
 		run := func(name string, i int) {
 			spawn(name, func() {
 				defer func() {
